@@ -287,10 +287,9 @@ Proof.
     try (inversion H; subst; exact Z).
   destruct (loop_child m e x xr W Oe K) as (Ox & Hxr & _).
   pose proof (owned_loop_nz m e x xr Z Oe K) as Zx.
-  destruct (lr_rmie xr rg) as [[|]|]; cbn [bind] in H; try discriminate.
-  - destruct (lr_mul xr rg) as [r|] eqn:M; cbn [bind] in H; [|discriminate].
-    apply (make_nz m (NLoop x r) m' t W Z I (mul_nz xr rg r Hxr Hv Zx Zr M) H).
-  - apply (make_nz m (NLoop e rg) m' t W Z I Zr H).
+  destruct (lr_rmie xr rg) as [[|]|]; try (apply (make_nz m (NLoop e rg) m' t W Z I Zr H)).
+  destruct (lr_mul xr rg) as [r|] eqn:M; try (apply (make_nz m (NLoop e rg) m' t W Z I Zr H)).
+  apply (make_nz m (NLoop x r) m' t W Z I (mul_nz xr rg r Hxr Hv Zx Zr M) H).
 Qed.
 
 Lemma point_one_nz : lr_is_zero (lr_point 1) = false.
@@ -309,24 +308,24 @@ Proof.
   destruct (is_eps_node e1); [inversion H; subst; auto|].
   destruct (is_eps_node e2); [inversion H; subst; auto|].
   unfold concat_rules in H.
-  destruct (rule5 e1 e2) as [rng|] eqn:R5.
-  { destruct (rule5_spec m e1 e2 rng W O1 O2 R5) as [Hv _].
-    destruct (lr_add_point rng 1) as [r|] eqn:A; cbn [bind] in H; [|discriminate].
+  destruct (rule5g e1 e2) as [r|] eqn:G5.
+  { apply rule5g_some in G5 as (rng & R5 & A).
+    destruct (rule5_spec m e1 e2 rng W O1 O2 R5) as [Hv _].
     apply (make_nz m (NLoop e1 r) m' t W Z I); [|exact H].
     apply (add_nz rng (lr_point 1) r Hv point_one_valid point_one_nz A). }
-  destruct (rule5 e2 e1) as [rng|] eqn:R6.
-  { destruct (rule5_spec m e2 e1 rng W O2 O1 R6) as [Hv _].
-    destruct (lr_add_point rng 1) as [r|] eqn:A; cbn [bind] in H; [|discriminate].
+  destruct (rule5g e2 e1) as [r|] eqn:G6.
+  { apply rule5g_some in G6 as (rng & R6 & A).
+    destruct (rule5_spec m e2 e1 rng W O2 O1 R6) as [Hv _].
     apply (make_nz m (NLoop e2 r) m' t W Z I); [|exact H].
     apply (add_nz rng (lr_point 1) r Hv point_one_valid point_one_nz A). }
-  destruct (rule7 e1 e2) as [[[x xr] yr]|] eqn:R7.
-  { destruct (rule7_spec m e1 e2 x xr yr W O1 O2 R7) as (Hx & Hv1 & Hv2 & _).
+  destruct (rule7g e1 e2) as [[x r]|] eqn:G7.
+  { apply rule7g_some in G7 as (xr & yr & R7 & A).
+    destruct (rule7_spec m e1 e2 x xr yr W O1 O2 R7) as (Hx & Hv1 & Hv2 & _).
     assert (Zy : lr_is_zero yr = false).
     { unfold rule7 in R7. destruct (loop_of e1) as [[x1 r1]|]; [|discriminate].
       destruct (loop_of e2) as [[x2 r2]|] eqn:E2; [|discriminate].
       destruct (re_eqb x1 x2); [|discriminate]. inversion R7; subst.
       apply loop_of_some in E2. apply (owned_loop_nz m e2 x2 yr Z O2 E2). }
-    destruct (lr_add xr yr) as [r|] eqn:A; cbn [bind] in H; [|discriminate].
     apply (make_nz m (NLoop x r) m' t W Z I); [|exact H].
     apply (add_nz xr yr r Hv1 Hv2 Zy A). }
   destruct (re_eqb e1 e2).
@@ -1004,8 +1003,9 @@ Qed.
 (* ------------------------------------------------------------------------------------------ *)
 (** * Side facts *)
 
-(* class_of_char never fails on an owned term, pick_in_class never fails on a valid class id:
-   cached_deriv can return None only through a constructor (u32 overflow of a loop bound) *)
+(* class_of_char never fails on an owned term, pick_in_class never fails on a valid class id, and
+   (D11 repaired) no constructor panics: cached_deriv never returns None for a valid class id
+   (cached_deriv_total at the end of this file) *)
 Lemma coc_total : merge_ok -> forall m e c, wf m -> owned m e -> coc e c <> None.
 Proof.
   intros HM m e c W Oe. unfold coc. apply pclass_of_char_total.
@@ -1088,6 +1088,134 @@ Proof.
   - eapply diff_nz; eauto.
 Qed.
 
+(* ------------------------------------------------------------------------------------------ *)
+(** * Totality: no derivative panics (D11 repaired)
+
+   Before the repair of D11 a class derivative could panic inside ReManager::concat (u32 overflow of
+   merged loop bounds).  With concat and mk_loop total, every class derivative for a valid class id
+   returns, from every manager satisfying the derivative-level invariant, with no bound on the
+   term. *)
+
+Definition tot_spec (e : re) : Prop := forall m cid,
+  dwf m -> owned m e -> pvalid (rcls e) cid = true -> exists m' d, cached_deriv e m cid = Some (m', d).
+
+Lemma tot_deriv x : tot_spec x -> forall m c, dwf m -> owned m x -> good c ->
+  exists k m1 d1, coc x c = Some k /\ cached_deriv x m k = Some (m1, d1) /\
+    dwf m1 /\ ext m m1 /\ owned m1 d1.
+Proof.
+  intros Hx m c Dm O Hc.
+  destruct (coc x c) as [k|] eqn:K; [|exfalso; exact (coc_total merge_ok_holds m x c (proj1 Dm) O K)].
+  destruct (coc_class merge_ok_holds m x c k (proj1 Dm) O Hc K) as [Hv _].
+  destruct (Hx m k Dm O Hv) as (m1 & d1 & D).
+  destruct (cached_deriv_spec merge_ok_holds inclusion_sound_holds x m k m1 d1 Dm O Hv D) as (D1 & X1 & O1 & _).
+  exists k, m1, d1. auto.
+Qed.
+
+Lemma tot_list c : good c -> forall l, (forall x, In x l -> tot_spec x) ->
+  forall m, dwf m -> (forall x, In x l -> owned m x) ->
+  exists m1 ds, deriv_list c l m = Some (m1, ds) /\ dwf m1.
+Proof.
+  intros Hc. induction l as [|x t IH]; intros Hl m Dm Ho.
+  - exists m, []. split; [reflexivity | exact Dm].
+  - destruct (tot_deriv x (Hl x (or_introl eq_refl)) m c Dm (Ho x (or_introl eq_refl)) Hc)
+      as (k & m2 & d & K & D & D2 & X2 & Od).
+    destruct (IH (fun y Hy => Hl y (or_intror Hy)) m2 D2
+                 (fun y Hy => ext_owned m m2 y X2 (Ho y (or_intror Hy)))) as (m1 & ds & DL & D3).
+    exists m1, (d :: ds). rewrite deriv_list_cons, K. cbn [bind]. rewrite D. cbn [bind]. rewrite DL. cbn [bind].
+    split; [reflexivity | exact D3].
+Qed.
+
+Lemma tot_body e : (forall x, In x (children (rnode e)) -> tot_spec x) ->
+  forall m c, dwf m -> owned m e -> good c -> exists m' r, deriv_body e m c = Some (m', r).
+Proof.
+  intros IH m c [W Z] Oe Hc.
+  assert (Hch : forall x, In x (children (rnode e)) -> owned m x)
+    by (intros x Hx; apply (wf_child m W e x Oe Hx)).
+  unfold deriv_body.
+  destruct (rnode e) as [| |s|e1 e2|e1 rg|e1|l|l] eqn:K; cbn [children] in *;
+    try (eexists; eexists; reflexivity).
+  - (* Concat *)
+    assert (I1 : In e1 [e1; e2]) by (cbn; auto). assert (I2 : In e2 [e1; e2]) by (cbn; auto).
+    destruct (tot_deriv e1 (IH e1 I1) m c (conj W Z) (Hch e1 I1) Hc)
+      as (k1 & m1 & d1 & K1 & D1 & [W1 Z1] & X1 & Od1).
+    rewrite K1. cbn [bind]. rewrite D1. cbn [bind].
+    pose proof (ext_owned m m1 e2 X1 (Hch e2 I2)) as Oe2.
+    destruct (concat_total_any d1 m1 e2) as (m2 & d1' & C2). rewrite C2. cbn [bind].
+    destruct (rnul e1); [|eexists; eexists; reflexivity].
+    destruct (concat_ok d1 m1 e2 m2 d1' W1 Od1 Oe2 C2) as (W2 & X2 & Od1' & _).
+    pose proof (concat_nz d1 m1 e2 m2 d1' W1 Z1 Od1 Oe2 C2) as Z2.
+    destruct (tot_deriv e2 (IH e2 I2) m2 c (conj W2 Z2) (ext_owned m1 m2 e2 X2 Oe2) Hc)
+      as (k2 & m3 & d2 & K2 & D2 & [W3 Z3] & X3 & Od2).
+    rewrite K2. cbn [bind]. rewrite D2. cbn [bind]. unfold union, union_list. apply make_union_total. exact W3.
+  - (* Loop *)
+    assert (I1 : In e1 [e1]) by (cbn; auto).
+    destruct (tot_deriv e1 (IH e1 I1) m c (conj W Z) (Hch e1 I1) Hc)
+      as (k1 & m1 & d1 & K1 & D1 & [W1 Z1] & X1 & Od1).
+    rewrite K1. cbn [bind]. rewrite D1. cbn [bind].
+    destruct (mk_loop_total_any m1 e1 (lr_shift rg)) as (m2 & e2 & ML). rewrite ML. cbn [bind].
+    apply concat_total_any.
+  - (* Complement *)
+    assert (I1 : In e1 [e1]) by (cbn; auto).
+    destruct (tot_deriv e1 (IH e1 I1) m c (conj W Z) (Hch e1 I1) Hc)
+      as (k1 & m1 & d1 & K1 & D1 & [W1 Z1] & X1 & Od1).
+    rewrite K1. cbn [bind]. rewrite D1. cbn [bind].
+    destruct (complement_ok m1 d1 W1 Od1) as (r' & E & _). rewrite E. cbn [bind]. eexists; eexists; reflexivity.
+  - (* Union *)
+    destruct (tot_list c Hc l IH m (conj W Z) Hch) as (m1 & ds & DL & [W1 Z1]).
+    rewrite DL. cbn [bind]. unfold union_list. apply make_union_total. exact W1.
+  - (* Inter *)
+    destruct (tot_list c Hc l IH m (conj W Z) Hch) as (m1 & ds & DL & [W1 Z1]).
+    rewrite DL. cbn [bind]. unfold inter_list. apply make_inter_total. exact W1.
+Qed.
+
+Theorem tot_spec_all : forall e, tot_spec e.
+Proof.
+  induction e as [e IH] using re_induction.
+  intros m cid [W Z] Oe Hv. rewrite cached_deriv_unfold.
+  destruct (cache_lookup (rid e) cid (cache m)) as [r|]; [eexists; eexists; reflexivity|].
+  pose proof (cls_wf_owned merge_ok_holds m e W Oe) as Hp.
+  destruct (ppick_spec (rcls e) cid Hp Hv) as (c & Pk & Hc & Hin). rewrite Pk. cbn [bind].
+  destruct (tot_body e IH m c (conj W Z) Oe Hc) as (m1 & r & DB). rewrite DB. cbn [bind].
+  eexists; eexists; reflexivity.
+Qed.
+
+(* a class derivative for a valid class id never panics *)
+Theorem cached_deriv_total e m cid :
+  dwf m -> owned m e -> pvalid (rcls e) cid = true -> exists m' d, cached_deriv e m cid = Some (m', d).
+Proof. intros. apply (tot_spec_all e); auto. Qed.
+
+(* char_derivative never panics on a valid character *)
+Theorem char_derivative_total m e c :
+  dwf m -> owned m e -> good c -> exists m' d, char_derivative m e c = Some (m', d).
+Proof.
+  intros Dm Oe Hc. destruct (tot_deriv e (tot_spec_all e) m c Dm Oe Hc) as (k & m1 & d1 & K & D & _).
+  exists m1, d1. unfold char_derivative, deriv. rewrite K. cbn [bind]. exact D.
+Qed.
+
+(* str_derivative / str_in_re never panic on a good string *)
+Theorem str_derivative_total : forall w m e,
+  dwf m -> owned m e -> goodw w -> exists m' d, str_derivative m e w = Some (m', d).
+Proof.
+  induction w as [|c t IH]; intros m e Dm Oe Hg; cbn [str_derivative]; [eauto|].
+  inversion Hg as [|? ? Hc Hg']; subst.
+  destruct (tot_deriv e (tot_spec_all e) m c Dm Oe Hc) as (k & m1 & d1 & K & D & D1 & _ & O1).
+  unfold deriv. rewrite K. cbn [bind]. rewrite D. cbn [bind]. apply IH; auto.
+Qed.
+Theorem str_in_re_total m w e :
+  dwf m -> owned m e -> goodw w -> exists m' b, str_in_re m w e = Some (m', b).
+Proof.
+  intros Dm Oe Hg. destruct (str_derivative_total w m e Dm Oe Hg) as (m1 & d & E).
+  unfold str_in_re. rewrite E. cbn [bind]. eauto.
+Qed.
+
+(* the checked class derivative never panics (valid id: the derivative; invalid id: BadClassId) *)
+Theorem class_derivative_total m e cid :
+  dwf m -> owned m e -> exists m' res, class_derivative m e cid = Some (m', res).
+Proof.
+  intros Dm Oe. unfold class_derivative. destruct (pvalid (rcls e) cid) eqn:V; [|eauto].
+  destruct (cached_deriv_total e m cid Dm Oe V) as (m1 & d & E). rewrite E. cbn [bind]. eauto.
+Qed.
+
 Print Assumptions cached_deriv_correct.
 Print Assumptions deriv_class_uniform.
 Print Assumptions membership_denotation.
@@ -1095,3 +1223,4 @@ Print Assumptions set_derivative_spec.
 Print Assumptions merge_ok_holds.
 Print Assumptions inclusion_sound_holds.
 Print Assumptions wf_alone_insufficient.
+Print Assumptions cached_deriv_total.
